@@ -51,6 +51,13 @@ func (x *Exec) Pick(s *vrt.Sched, alts []vrt.Alt, costs []int) int {
 			return -1
 		}
 	}
+	if debugAlts {
+		fmt.Fprintf(os.Stderr, "choice %d: take %d of", i, c)
+		for k, a := range alts {
+			fmt.Fprintf(os.Stderr, " [%d c%d %s]", k, costs[k], a.String())
+		}
+		fmt.Fprintln(os.Stderr)
+	}
 	x.Choices = append(x.Choices, c)
 	x.nAlts = append(x.nAlts, len(alts))
 	x.costs = append(x.costs, append([]int{}, costs...))
@@ -70,6 +77,8 @@ func (x *Exec) Quiesce() {
 
 // OnCleanup registers a function run after the execution ended (close DBs, conns).
 func (x *Exec) OnCleanup(f func()) { x.cleanup = append(x.cleanup, f) }
+
+var debugAlts = os.Getenv("VERIF_DEBUG_ALTS") != ""
 
 type defaultStrategy struct{}
 
@@ -324,6 +333,9 @@ type Plan struct {
 	QuickBound, ThoroughBound   int
 	QuickBudget, ThoroughBudget time.Duration // per process
 	Shards                      int           // processes per (scenario,bound) at the top bound
+	// Before runs in the parent before the exploration; it may report violations and returns extra
+	// coverage keys (evaluations / distinct_nontrivial are added to the totals).
+	Before func(run *ev.Run) ev.Coverage
 }
 
 // Main is the entry point of an E1 harness binary.
@@ -353,6 +365,10 @@ func Main(id string, scenarios []*Scenario, plan Plan, level string, assumptions
 	maxBound := plan.QuickBound
 	if run.Thorough() {
 		maxBound = plan.ThoroughBound
+	}
+	var extra ev.Coverage
+	if plan.Before != nil {
+		extra = plan.Before(run)
 	}
 	var jobs []job
 	for b := 0; b <= maxBound; b++ {
@@ -497,7 +513,7 @@ func Main(id string, scenarios []*Scenario, plan Plan, level string, assumptions
 		bounds[fmt.Sprint(b)] = map[string]interface{}{"executions": a.Execs, "complete": a.Complete, "horizon_hits": a.Horizon}
 	}
 	distinct := len(outcomes)
-	run.Finish(ev.Coverage{
+	cov := ev.Coverage{
 		"evaluations":                   totalExec,
 		"distinct_nontrivial":           distinct,
 		"rule":                          "every schedule (thread interleaving + environment answers) of each scenario with at most B deviations, B iterated from 0; one evaluation = one complete execution of the real code under the controlled scheduler; distinct = distinct (scenario, observable outcome) pairs",
@@ -514,7 +530,20 @@ func Main(id string, scenarios []*Scenario, plan Plan, level string, assumptions
 		"samples":                       samples.List(),
 		"exhaustive":                    completed == maxBound,
 		"explanation":                   "stateless DFS on the implementation itself; there is no separate model",
-	})
+	}
+	for k, v := range extra {
+		switch k {
+		case "evaluations", "distinct_nontrivial", "states", "transitions", "traces_validated_against_impl":
+			cov[k] = cov[k].(int) + v.(int)
+		case "rule":
+			cov[k] = v.(string) + " | " + cov[k].(string)
+		case "samples":
+			cov[k] = append(v.([]interface{}), cov[k].([]interface{})...)
+		default:
+			cov[k] = v
+		}
+	}
+	run.Finish(cov)
 }
 
 func replayFile(id string, scenarios []*Scenario, path string) {
